@@ -28,7 +28,9 @@ Alphabets ==
   "CIGAR"  :> <<77, 73, 68, 78, 83, 72, 80, 61, 88>> @@                                                   \* MIDNSHP=X
   "STRAND" :> <<43, 45, 46>> @@                                                                           \* +-.
   \* an alphabet a user defines (AlphabetEncoding("...")): it holds the last letter of the letter range, Z, and symbols
-  "USER"   :> <<65, 67, 68, 69, 70, 71, 72, 73, 75, 76, 77, 78, 80, 81, 82, 83, 84, 86, 87, 89, 66, 90, 88, 42>>      \* ACDEFGHIKLMNPQRSTVWYBZX*
+  "USER"   :> <<65, 67, 68, 69, 70, 71, 72, 73, 75, 76, 77, 78, 80, 81, 82, 83, 84, 86, 87, 89, 66, 90, 88, 42>> @@   \* ACDEFGHIKLMNPQRSTVWYBZX*
+  \* a user-defined alphabet of symbols only, holding characters that lie 32 apart without being a letter and its lower case: [ and {, ] and }
+  "BRACKET" :> <<91, 123, 93, 125, 40, 41, 60, 62>>                                                      \* [{]}()<>
 Names == DOMAIN Alphabets
 
 IsUpperLetter(b) == b \in 65..90
